@@ -47,14 +47,31 @@ def check_condition(path, fname, params=None, timeout=60, per_path=None, label=N
         cmd += ['--per_path_timeout', str(per_path)]
     cmd.append(f'{path}:{line}')
     name = label or f'{fname} {json.dumps(params, sort_keys=True) if params else ""}'.strip()
+    env = _env(params)
+    # harnesses that enumerate concrete cells append one line per executed cell to this file (measured coverage for the evidence)
+    import hashlib
+    cfile = os.path.join(VERIF, 'scratch', 'cells_' + hashlib.sha1(f'{path}:{fname}:{json.dumps(params, sort_keys=True)}:{os.getpid()}'.encode()).hexdigest()[:16] + '.txt')
+    os.makedirs(os.path.dirname(cfile), exist_ok=True)
+    if os.path.exists(cfile):
+        os.remove(cfile)
+    env['XH_COUNT_FILE'] = cfile
     try:
-        p = subprocess.run(cmd, env=_env(params), capture_output=True, text=True, timeout=timeout * 3 + 120, cwd=VERIF)
+        p = subprocess.run(cmd, env=env, capture_output=True, text=True, timeout=timeout * 3 + 120, cwd=VERIF)
         out = p.stdout + p.stderr
     except subprocess.TimeoutExpired as e:
         return {'name': name, 'status': INCONCLUSIVE, 'error': 'crosshair process exceeded its wall limit', 'wall_s': round(time.time() - t0, 2),
                 'queries': [{'q': fname, 'result': 'timeout', 'time_s': round(time.time() - t0, 2)}], 'params': params, 'fname': fname}
     dt = round(time.time() - t0, 2)
     res = {'name': name, 'wall_s': dt, 'params': params, 'fname': fname, 'raw': out.strip()[-1500:]}
+    if os.path.exists(cfile):
+        try:
+            with open(cfile) as f:
+                keys = [l.strip() for l in f if l.strip()]
+            res['cells_executed'], res['cells_distinct'] = len(keys), len(set(keys))
+            if keys:
+                res['cell_sample'] = keys[len(keys) // 2][:300]
+        finally:
+            os.remove(cfile)
     verdict = 'unknown'
     msg = ''
     for l in out.splitlines():
